@@ -336,3 +336,39 @@ DESUGAR_HINT_LE = DESUGAR_HINT_HEAD + """        assert forall|w: Seq<Identifier
         }
  }
     """
+
+
+# ---------------------------------------------------------------------------------------------- locals by placeholder
+# The annotations above are written with the names the locals have today; they are stored with placeholders ($L<n> = variable of the
+# n-th `for` loop, $M<n> = n-th `let mut`), so that renaming a local in /repo does not detach the proof from the code.
+import re as _re
+
+
+def _tpl(kw, names):
+    def sub(t):
+        for nm, ph in names.items():
+            t = _re.sub(r'(?<![\w$])' + nm + r'(?![\w])', ph, t)
+        return t
+    out = dict(kw)
+    for k in ('entry',):
+        if k in out:
+            out[k] = sub(out[k])
+    for k in ('loops',):
+        if k in out:
+            out[k] = [(o, it, sub(inv)) for (o, it, inv) in out[k]]
+    for k in ('loop_entry', 'loop_end'):
+        if k in out:
+            out[k] = [(o, sub(t)) for (o, t) in out[k]]
+    for k in ('after', 'before'):
+        if k in out:
+            out[k] = [(sub(a), sub(b)) for (a, b) in out[k]]
+    return out
+
+
+RANGE['satisfies'] = _tpl(RANGE['satisfies'], {'range': '$L0'})
+RANGE['allows_any'] = _tpl(RANGE['allows_any'], {'this': '$L0', 'that': '$L1'})
+RANGE['allows_all'] = _tpl(RANGE['allows_all'], {'this': '$L0', 'that': '$L1'})
+RANGE['intersect'] = _tpl(RANGE['intersect'], {'lefty': '$L0', 'righty': '$L1', 'sets': '$M0'})
+RANGE['difference'] = _tpl(RANGE['difference'], {'lefty': '$L0', 'righty': '$L1', 'piece': '$L2', 'predicates': '$M0', 'remainders': '$M1', 'next': '$M2'})
+RANGE['min_version'] = _tpl(RANGE['min_version'], {'range': '$L0', 'min': '$M0'})
+INTERSECT_ALL = _tpl(INTERSECT_ALL, {'comparator': '$L0', 'acc': '$M0'})
